@@ -274,6 +274,11 @@ def correspond(ctx, corr, model_ok):
     corr.oracle_failures.extend(mf)
     corr.evaluations += n
     corr.count('AbstractMessagingTransport arrival/consumption schedules with a transport failure', n)
+    er = endpoint_reads_oracle(ctx.rng, ctx.scale(20, 300))
+    corr.oracle_failures.extend(er)
+    corr.evaluations += 2 * (66 + ctx.scale(20, 300))
+    corr.count('whole endpoint on the TCP transport: every two-way split, per-frame reads, random reads, early end of stream',
+               2 * (66 + ctx.scale(20, 300)))
     if not model_ok:
         return
     live = [x for x in items if x[0] is not None]
@@ -296,11 +301,17 @@ def search(ctx, budget_s):
         mf, _ = messaging_oracle(ctx)
         if mf:
             return mf[:1]
+        er = endpoint_reads_oracle(ctx.rng, 40)
+        if er:
+            return er[:1]
     return []
 
 
 def replay(obj):
     case = obj['case']
+    if case.get('kind') == 'endpoint-reads':
+        import random
+        return bool(endpoint_reads_oracle(random.Random(1), 40))
     if 'messaging_case' in case:
         from harness import common
         return bool(messaging_oracle(common.Ctx('C04', 'quick', 0))[0])
@@ -430,3 +441,148 @@ def messaging_oracle(ctx):
                             'expected': len(want), 'got': len(got), 'failure_reported': failed})
                 break
     return out, n_cases
+
+
+# ---------------------------------------------------------------------------------------------
+# the same at the level of a whole ENDPOINT on the real TCP transport: a byte stream of requests — one of them failing in its
+# handler, one rejected, malformed ones in between — is read in every way a socket can deliver it, with the peer's orderly end
+# of stream arriving before or after the last bytes have been read.  What the handlers saw and what was answered may not
+# depend on the reads.
+
+def _endpoint_stream():
+    frs = [
+        {'t': 'RequestResponse', 'sid': 1, 'ign': False, 'follows': False, 'md': b'', 'd': b'first'},
+        {'t': 'RequestResponse', 'sid': 3, 'ign': False, 'follows': False, 'md': b'', 'd': b'raise'},
+        {'t': 'RequestFnf', 'sid': 5, 'ign': False, 'follows': False, 'md': b'', 'd': b'fnf-after-raise'},
+        {'t': 'RequestResponse', 'sid': 1, 'ign': False, 'follows': False, 'md': b'', 'd': b'id-in-use'},
+        {'t': 'Resume', 'sid': 0, 'ign': False, 'major': 1, 'minor': 0, 'token': b't', 'ls': 1, 'fc': 2},
+        {'t': 'RequestResponse', 'sid': 7, 'ign': False, 'follows': False, 'md': b'm', 'd': b'second'},
+        {'t': 'MetadataPush', 'sid': 0, 'ign': False, 'md': b'pushed'},
+        {'t': 'RequestStream', 'sid': 9, 'ign': False, 'follows': False, 'n': 2, 'md': b'', 'd': b'stream'},
+        {'t': 'RequestResponse', 'sid': 11, 'ign': False, 'follows': False, 'md': b'', 'd': b'last'},
+    ]
+    bodies = [FR.build(f).serialize() for f in frs]
+    bodies.insert(3, bytes([0, 0, 0, 13, 0xFC, 0, 1, 2]))        # unknown frame type: skipped
+    return b''.join(len(b).to_bytes(3, 'big') + b for b in bodies)
+
+
+def run_endpoint_reads(chunks_, eof_with_last):
+    import asyncio
+    from harness import sim
+    from rsocket.transports.tcp import TransportTCP
+    from rsocket.rsocket_server import RSocketServer
+    from rsocket.request_handler import BaseRequestHandler
+    from rsocket.payload import Payload
+    from rsocket.helpers import create_future
+    from rsocket.streams.stream_from_generator import StreamFromGenerator
+    loop = sim.new_loop()
+    seen = []
+
+    class Wr:
+        def __init__(self):
+            self.writes = []
+            self.closed = False
+
+        def write(self, b):
+            self.writes.append(bytes(b))
+
+        async def drain(self):
+            pass
+
+        def close(self):
+            self.closed = True
+
+        async def wait_closed(self):
+            pass
+
+        def is_closing(self):
+            return self.closed
+
+    class H(BaseRequestHandler):
+        async def request_response(self, payload):
+            seen.append(('rr', bytes(payload.data)))
+            if payload.data == b'raise':
+                raise KeyError('handler failed')
+            f = create_future()
+            if payload.data != b'first':        # stream 1 stays open: the later request on its id is refused whenever it arrives
+                f.set_result(Payload(b'answer to ' + bytes(payload.data)))
+            return f
+
+        async def request_fire_and_forget(self, payload):
+            seen.append(('fnf', bytes(payload.data)))
+
+        async def on_metadata_push(self, payload):
+            seen.append(('push', bytes(payload.metadata)))
+
+        async def request_stream(self, payload):
+            seen.append(('rs', bytes(payload.data)))
+
+            def g():
+                yield Payload(b'e1'), False
+                yield Payload(b'e2'), True
+            return StreamFromGenerator(g)
+    w = Wr()
+    box = {}
+    try:
+        def mk():
+            box['r'] = asyncio.StreamReader()
+            box['e'] = RSocketServer(TransportTCP(box['r'], w), handler_factory=H)
+        loop.run(mk)
+        loop.settle()
+        for i, c in enumerate(chunks_):
+            last = i == len(chunks_) - 1
+            loop.run(lambda c=c, last=last: (box['r'].feed_data(c), box['r'].feed_eof() if (last and eof_with_last) else None))
+            loop.settle()
+        if not eof_with_last:
+            loop.run(lambda: box['r'].feed_eof())
+        loop.settle()
+        out = b''.join(w.writes)
+        answers = []
+        i = 0
+        while i + 3 <= len(out):
+            n = int.from_bytes(out[i:i + 3], 'big')
+            d = sim.parse_sent(out[i + 3:i + 3 + n])
+            answers.append((d.get('t'), d.get('sid'), bytes(d.get('d') or b'') if d.get('t') != 'Error' else d.get('code')))
+            i += 3 + n
+        # answers on different streams may interleave differently with the timing of the reads: per stream they may not
+        per_stream = sorted(answers, key=lambda x: x[1])          # stable: keeps the order within a stream
+        return seen, per_stream
+    finally:
+        loop.finish()
+
+
+def endpoint_reads_oracle(rng, n_random):
+    stream = _endpoint_stream()
+    ref = run_endpoint_reads([stream], False)
+    out = []
+    parts = [[stream], [stream[:1], stream[1:]], [stream[:2], stream[2:]], [stream[:-1], stream[-1:]]]
+    # one frame per read, every two-way split, a few random partitions
+    fr_cuts = []
+    i = 0
+    while i < len(stream):
+        n = int.from_bytes(stream[i:i + 3], 'big')
+        fr_cuts.append(i + 3 + n)
+        i += 3 + n
+    parts.append([stream[a:b] for a, b in zip([0] + fr_cuts[:-1], fr_cuts)])
+    for k in range(1, len(stream), 3):
+        parts.append([stream[:k], stream[k:]])
+    for _ in range(n_random):
+        cuts = sorted(rng.sample(range(1, len(stream)), rng.randint(2, 12)))
+        parts.append([stream[a:b] for a, b in zip([0] + cuts, cuts + [len(stream)])])
+    if len(ref[0]) < 7:
+        out.append({'what': 'endpoint on the TCP transport: reference run saw only %r' % (ref[0],), 'kind': 'endpoint-reads'})
+    for p in parts:
+        for eof_with_last in (False, True):
+            got = run_endpoint_reads(p, eof_with_last)
+            # with the end of the stream already there the answers may go unwritten (the peer is gone); what was received
+            # must still have been handed to the handlers, all of it
+            if (got[0] != ref[0]) if eof_with_last else (got != ref):
+                out.append({'what': 'an endpoint on the TCP transport handled the same bytes differently when read as %s%s: handlers saw %r '
+                                    '(one read: %r); answers %r (one read: %r)' %
+                                    ([len(c) for c in p][:14], ' with the end of stream already buffered at the last read' if eof_with_last else '',
+                                     got[0][-4:], ref[0][-4:], got[1][-3:], ref[1][-3:]),
+                            'kind': 'endpoint-reads', 'chunk_lengths': [len(c) for c in p], 'eof_with_last': eof_with_last})
+                break
+        if len(out) >= 3:
+            break
+    return out
